@@ -18,7 +18,7 @@ PROPS_MODULE = 'QV.C11.Props'
 CORR_IMPORTS = ['QV.C11.Model', 'QV.C11.Corr']
 CHECK_CORR = 'check_corr'
 CHECK_SPEC = 'check_spec'
-SHARD = 85
+SHARD = 50
 RULE = ('one case = backend (dict / directory / zip / caching wrapper) x failure-free history on one PulseStorage '
         '(stores, overwrites, clear or a new PulseStorage taking over, loads that cache new objects, deletes, re-stores '
         'of deleted identifiers with the same or another object) x final store / overwrite / delete.  The history runs once; from the restored state '
@@ -898,6 +898,7 @@ def _gen_cases(rng, tier, ctx):
     # small-scope enumeration
     maxk = 2 if tier == 'quick' else 3
     combos = []
+    nenum = 0
     for n in range(0, maxk + 1):
         combos.extend(itertools.product(KID_MENU, repeat=n))
     for kk in combos:
@@ -906,18 +907,22 @@ def _gen_cases(rng, tier, ctx):
                 for preset in (0, 1, 2):
                     if preset == 0 and (cleared or rm != 'store_fresh'):
                         continue
-                    keep = 1.0 if tier == 'thorough' and len(kk) <= 2 else (0.16 if tier == 'quick' else 0.1)
+                    # thorough (trimmed in round 5 to fit ~25 min): child lists of length <= 1 on every backend, every
+                    # list of length 2 on one backend in rotation (+ 10 % of the other two), 2 % of the lists of length 3
+                    keep = 1.0 if tier == 'thorough' and len(kk) <= 2 else (0.16 if tier == 'quick' else 0.02)
                     if len(kk) <= 1 and tier == 'quick':
                         keep = 0.6
+                    nenum += 1
                     # operations that are rejected before the first write are cheap but dominate the product space
                     prewrite = (rm == 'store_used' or 'usedid' in kk or 'bad' in kk
                                 or (cleared and any(x.startswith('cached') for x in kk))
                                 or (rm == 'overwrite_cached1' and 'cached1' not in kk and False))
                     if prewrite and not (tier == 'thorough' and len(kk) <= 2):
                         keep *= 0.25
-                    for b in backends:
+                    for jb, b in enumerate(backends):
                         # (a put into the archive copies the archive: the zip cases cost three times the others)
-                        if rng.random() < keep * (0.7 if b == 'zip' and tier == 'quick' and len(kk) == 2 else 1.0):
+                        rot = 0.1 if tier == 'thorough' and len(kk) == 2 and jb != nenum % 3 else 1.0
+                        if rng.random() < rot * keep * (0.7 if b == 'zip' and tier == 'quick' and len(kk) == 2 else 1.0):
                             cases.append(enum_case(b, preset, rm, list(kk), cleared,
                                                    'partial' if rng.random() < 0.3 else 'raise'))
     # deletes on the preset storage
@@ -960,7 +965,7 @@ def _gen_cases(rng, tier, ctx):
     cases.extend(registry_cases(backends + ['cfs']))
     cases.extend(nest_cases(backends, tier))
     # random templates on random storages
-    for _ in range({'quick': 150, 'thorough': 2500}[tier]):
+    for _ in range({'quick': 150, 'thorough': 800}[tier]):
         cases.append(rand_case(rng, rng.choice(backends)))
     return cases
 
@@ -1004,6 +1009,13 @@ def histogram_keys(case, obs):
         if case.get('names'):
             keys.append('identifier_spelling:special')
         keys.append('stored_before:%d' % min(len(obs['before']['entries']), 6))
+        # round 5 (audit): cases on which check_spec says nothing (outside the quantifier of the property)
+        if obs['before']['missing'] or not all(e[2] for e in obs['before']['entries']):
+            keys.append('spec:vacuous:storage-broken-before-the-operation')
+        elif case['final']['op'] == 'delete' and any(e[1] and case['final']['id'] in e[1][1] for e in obs['before']['entries']):
+            keys.append('spec:vacuous:delete-of-a-referenced-entry')
+        else:
+            keys.append('spec:judged')
         for p in set(obs['trace']):
             keys.append('prim:' + p)
         nk = _kill_positions(obs)
@@ -1255,32 +1267,42 @@ def search_failing(ctx, broken):
 
 MANIFEST = {
     'level_text': 'Proof (Coq, unbounded in storage content, template size, crash position and history length) over a '
-                  'step model of the three storage backends and of PulseStorage store / overwrite / delete with its '
-                  'transaction buffer: after every prefix of the primitive steps - whether the failing primitive raises '
-                  'and the clean-up clauses run, or the process is killed and nothing else runs - every identifier '
-                  'holds old or new content and nothing changes before the first publishing step WITHOUT ANY GUARD, and '
-                  '"the archive exists and every listed identifier loads recursively" holds at every interruption point '
-                  'IF AND ONLY IF the operation passes the executable guard guard2_exact (C11_repaired_crash_safe_exact; '
-                  'C11_crash_safe_exact for the code before the round-4 repair).  For the code as it is now (encoder '
-                  'repaired in round 4, repo a5bca40: model Repair.v) the cycle guard ALONE implies it for every template '
-                  '(C11_repaired_crash_safe: the former guard_C11_dup_id is gone); the hypotheses are an invariant of '
-                  'histories of completed / failed / killed operations (C11_repaired_history_safe).  The model is tied to '
-                  '/repo on every run by fault injection at every mutating (on a share of the cases also reading, and '
-                  'low-level archive-writer) primitive of the real backends, by failures produced by the operating '
-                  'system itself (EMFILE at every opening primitive, ENAMETOOLONG / ENOENT for identifiers the file '
-                  'system refuses), by kill runs (directory copied before every position, the process really killed at '
-                  'sampled positions, several flush modes, observation and follow-up operation by new objects) and a '
-                  'follow-up operation after every failure.',
-    'level_note': 'Full proof; one known finding left: overwrite-creates-cycle (a stale cached object lets a completed '
-                  'overwrite close a reference cycle), excluded by guard2_cycle / guard2_exact; the exact guard is '
-                  'necessary and sufficient for clause (a), so nothing else is excluded.  dup-id-in-transaction was '
-                  'REPAIRED in round 4 (C11_repair_rejects, C11_repaired_children_before_parents).  The model answers '
-                  'EClash for an object met inside itself (impossible for immutable template trees).  Only the order of '
-                  'system calls is modelled (no fsync / power-loss reordering); failures / kills happen at hooked '
-                  'positions only; temporary files a killed process leaves behind are never listed and never cleaned '
-                  '(in the model state and in the kill runs; not a clause of the property).  Trusted: Coq kernel, the '
-                  'harness fault injector / state restore / directory-copy kill runs (each cross-checked on samples) and '
-                  'document parser, CPython os / zipfile, atomicity of os.replace.',
+                  'step model of the three storage backends (dict / directory / zip) and of PulseStorage store / overwrite '
+                  '/ delete with its transaction buffer as the code is now (encoder repaired in round 4, repo a5bca40: '
+                  'model Repair.v): after every prefix of the primitive steps - whether the failing primitive raises and '
+                  'the clean-up clauses run, or the process is killed and nothing else runs - every identifier holds its '
+                  'old content or the document of a node of the stored template (C11_repaired_old_or_new_content) and '
+                  'nothing changes before the first publishing step, WITHOUT ANY GUARD; "the archive exists and every '
+                  'listed identifier loads recursively" holds at every interruption point IF AND ONLY IF the operation '
+                  'passes the executable guard guard2_exact (C11_repaired_crash_safe_exact), which the cycle guard alone '
+                  'implies for every template (C11_repaired_crash_safe); the hypotheses are an invariant of histories of '
+                  'completed / failed / killed operations (C11_repaired_history_safe).  An un-serializable object anywhere in a '
+                  'template whose named nodes are all new is rejected with the disk unchanged (C11_unserializable_rejected).  '
+                  'TESTED ONLY, not proved: which identifier clashes are rejected and that this happens before the first '
+                  'backend call (it is the shape of the model; C11_error_before_write is definitional), un-serializable '
+                  'objects next to cached children, the CachingBackend wrapper, and clause '
+                  '"no partial trace before the first write" on the implementation side is judged at the first mutating '
+                  'primitive only (later non-publishing positions through the state-sequence comparison with the model).  '
+                  'The model is tied to /repo on every run by fault injection at every mutating (on a share of the cases '
+                  'also reading, and low-level archive-writer) primitive of the real backends, by failures produced by '
+                  'the operating system itself (EMFILE at every opening primitive, ENAMETOOLONG / ENOENT for identifiers '
+                  'the file system refuses), by kill runs (directory copied before every position, the process really '
+                  'killed at sampled positions, several flush modes, observation and follow-up operation by new objects) '
+                  'and a follow-up operation after every failure.',
+    'level_note': 'Proof for the three clauses at backend-failure / crash positions; one known finding: '
+                  'overwrite-creates-cycle (a stale cached object lets a completed overwrite close a reference cycle; '
+                  'C11_repaired_cycle_refuted), excluded by guard2_cycle / guard2_exact; the exact guard is necessary and '
+                  'sufficient for clause (a), so nothing else is excluded; `classify` attributes a rejected case to the '
+                  'finding only when the implementation behaved as the model, an operation is outside guard2_exact, every '
+                  'clause but loadability holds and the unloadable state is present and closed (a cycle).  31 of the 46 '
+                  'theorems are about the model of the code BEFORE the round-4 repair (kept as the record of why the '
+                  'repairs were needed).  dup-id-in-transaction was REPAIRED in round 4.  The model answers EClash for an '
+                  'object met inside itself (impossible for immutable template trees).  Templates in the tests: '
+                  'ConstantPT / FunctionPT / SequencePT / RepetitionPT only.  Only the order of system calls is modelled '
+                  '(no fsync / power-loss reordering); failures / kills happen at hooked positions only; temporary files a '
+                  'killed process leaves behind are never listed and never cleaned (not a clause of the property).  '
+                  'Trusted: Coq kernel, the harness fault injector / state restore / directory-copy kill runs (each '
+                  'cross-checked on samples) and document parser, CPython os / zipfile, atomicity of os.replace.',
     'technique': 'Coq proof (induction over the primitive step list, the transaction buffer and the template; rank / '
                  'pigeonhole argument for recursive loadability; registry invariant of the repaired encoder; boundary '
                  'lemma "every prefix of the buffer is visible at some interruption point" for exactness; invariant '
